@@ -687,6 +687,99 @@ func c13ScaleEval(c *Ctx, cs Case) {
 	}
 }
 
+// spcLinkVariants: the inside of an SpcIndirectDataContent (as authenticode.CreateSpcIndirectDataContent builds it) with
+// its SpcPeImageData - the value beside the image digest that says what was signed, a structure every signer fills in
+// its own way and that is as attacker-controlled as the rest of the signature - replaced by each form the syntax allows:
+//
+//	SpcPeImageData ::= SEQUENCE { flags SpcPeImageFlags DEFAULT { includeResources }, file SpcLink }
+//	SpcLink        ::= CHOICE   { url [0] IMPLICIT IA5STRING, moniker [1] IMPLICIT SpcSerializedObject, file [2] EXPLICIT SpcString }
+//	SpcString      ::= CHOICE   { unicode [0] IMPLICIT BMPSTRING, ascii [1] IMPLICIT IA5STRING }
+//
+// every alternative with strings of 0, 1, 2, 3, 27, 28, 29 and 300 bytes (a BMPString of odd length is not a string of
+// 16-bit characters), the SpcSerializedObject with serialised data of 0..3 bytes and without its fields, an empty and an
+// unknown alternative at both levels, the link inside the [0] wrapper signers emit and without it, no link at all, and
+// the flags as the library writes them, with unused bits, and left out (rotating over the links).
+func spcLinkVariants(spc []byte) (names []string, out [][]byte) {
+	roots, ok := parseDER(spc)
+	if !ok || len(roots) != 2 || !roots[0].compound || len(roots[0].kids) != 2 || roots[0].kids[1].tag != 0x30 {
+		return nil, nil
+	}
+	text := func(n int) []byte { // the first n bytes of the big-endian UTF-16 text signers put here, repeated
+		var t []byte
+		for len(t) < n {
+			for _, ch := range "<<<Obsolete>>>" {
+				t = append(t, 0, byte(ch))
+			}
+		}
+		return t[:n]
+	}
+	ascii := func(n int) []byte { return bytes.Repeat([]byte("file.efi;"), n/9+1)[:n] }
+	prim := func(tag byte, b []byte) *derNode { return &derNode{tag: tag, leaf: b} }
+	cons := func(tag byte, kids ...*derNode) *derNode { return &derNode{tag: tag, compound: true, kids: kids} }
+	type link struct {
+		name string
+		n    *derNode // nil: no link
+	}
+	var links []link
+	for _, n := range []int{0, 1, 2, 3, 27, 28, 29, 300} {
+		links = append(links, link{fmt.Sprintf("file-unicode-%d", n), cons(0xa2, prim(0x80, text(n)))})
+		if n != 2 && n != 28 {
+			links = append(links, link{fmt.Sprintf("file-ascii-%d", n), cons(0xa2, prim(0x81, ascii(n)))})
+			links = append(links, link{fmt.Sprintf("url-%d", n), prim(0x80, ascii(n))})
+		}
+	}
+	for _, n := range []int{0, 1, 2, 3} {
+		links = append(links, link{fmt.Sprintf("moniker-%d", n), cons(0xa1, prim(0x04, bytes.Repeat([]byte{0xa6}, 16)), prim(0x04, text(n)))})
+	}
+	links = append(links, link{"moniker-empty", cons(0xa1)}, link{"file-empty", cons(0xa2)}, link{"file-unknown-alternative", cons(0xa2, prim(0x82, text(3)))},
+		link{"unknown-alternative", prim(0x83, text(3))}, link{"missing", nil})
+	flagForms := []*derNode{prim(0x03, []byte{0}), prim(0x03, []byte{5, 0xa0}), nil}
+	for i, l := range links {
+		for _, wrapped := range []bool{true, false} {
+			if !wrapped && (l.n == nil || i%3 != 0) {
+				continue
+			}
+			r0, r1 := roots[0].clone(), roots[1].clone()
+			var kids []*derNode
+			fl := flagForms[i%len(flagForms)]
+			if fl != nil {
+				kids = append(kids, fl)
+			}
+			name := l.name
+			switch {
+			case l.n == nil:
+			case wrapped:
+				kids = append(kids, cons(0xa0, l.n))
+			default:
+				kids = append(kids, l.n)
+				name += "/bare"
+			}
+			r0.kids[1].kids = kids
+			names = append(names, fmt.Sprintf("%s/flags%d", name, i%len(flagForms)))
+			out = append(out, append(r0.encode(), r1.encode()...))
+		}
+	}
+	return names, out
+}
+
+// a section table of nsec headers whose declared sizes add up to nsec x size: when that sum is at or just above a
+// multiple of 2^31 / 2^32 it is, in the 32-bit width of the header fields, no more than the file holds
+func wrapSectionTables(c *Ctx) (out [][2]int) {
+	type st struct{ size, total int64 }
+	sts := []st{{1 << 20, 1 << 31}, {1 << 20, 1 << 32}, {1 << 20, 1 << 33}, {256 << 10, 1 << 32}}
+	if c.Thorough {
+		sts = append(sts, st{128 << 10, 1 << 32}, st{512 << 10, 1 << 33}, st{512 << 10, 1 << 34}, st{1 << 20, 3 << 32}, st{1 << 20, 15 << 32}, st{2 << 20, 1 << 32}, st{64 << 10, 1 << 31})
+	}
+	for _, x := range sts {
+		for _, d := range []int64{-1, 0, 1} {
+			if n := x.total/x.size + d; n >= 1 && n <= 65535 {
+				out = append(out, [2]int{int(n), int(x.size)})
+			}
+		}
+	}
+	return out
+}
+
 func c13Gen(c *Ctx) {
 	defer func() {
 		if c13Worker != nil {
@@ -711,6 +804,11 @@ func c13Gen(c *Ctx) {
 	var seeds []p7Seed
 	type signedImage struct{ img, sig []byte }
 	var signedImages []signedImage
+	type spcImage struct {
+		class    string
+		img, sig []byte
+	}
+	var spcImages []spcImage
 	if !c13InProcess(c, "parsing and signing the valid generated images and signature blobs", func() {
 		for i := 0; i < c.N(2, 40); i++ {
 			s := genPeSpec(c, false)
@@ -721,6 +819,23 @@ func c13Gen(c *Ctx) {
 				signedImages = append(signedImages, signedImage{signed, sig})
 			} else {
 				images = append(images, img)
+			}
+			if i < c.P(1, 4) {
+				// the same image signed over each form of the SpcPeImageData / SpcLink (the library's own PKCS#7 signer
+				// over a content built here: signatures that verify), appended to the image's certificate table
+				if p, err := authenticode.Parse(bytes.NewReader(img)); err == nil {
+					spc, _ := authenticode.CreateSpcIndirectDataContent(p.Hash(crypto.SHA256), crypto.SHA256)
+					names, contents := spcLinkVariants(spc)
+					for j, content := range contents {
+						sig, err := pkcs7.SignPKCS7(k0, cert, authenticode.OIDSpcIndirectDataContent, content)
+						if err != nil {
+							continue
+						}
+						if q, err := authenticode.Parse(bytes.NewReader(img)); err == nil && q.AppendSignature(sig) == nil {
+							spcImages = append(spcImages, spcImage{names[j], q.Bytes(), sig})
+						}
+					}
+				}
 			}
 			if i == 0 { // the same image with section headers that declare raw data without a file pointer
 				s.NoBits, s.Trailing = []int{64, 1 + c.Rng.Intn(2000)}, 2100
@@ -742,6 +857,13 @@ func c13Gen(c *Ctx) {
 	}
 	emit("pe.all", "empty", nil)
 	emit("pe.all", "mz-only", []byte("MZ"))
+	// signatures whose SpcPeImageData / SpcLink takes each form of its syntax: inside the signed image (parsed, listed,
+	// hashed, re-serialised, verified with the signer's certificate) and alone (ParsePKCS7, ParseAuthenticode, both Verifys)
+	c.Note("spc_link_forms_signed", len(spcImages))
+	for _, si := range spcImages {
+		emit("pe.all", "spc-link/"+si.class, si.img)
+		emit("p7.all", "spc-link/"+si.class, si.sig)
+	}
 	// what an image entry point does with the signature INSIDE the certificate table: the signed images with
 	// their own signature replaced by each derived blob (targeted forgeries: every object identifier - digest
 	// algorithm of the SpcIndirectDataContent DigestInfo, of the SignedData, of the signer entry, content types,
@@ -819,6 +941,14 @@ func c13Gen(c *Ctx) {
 	// many section headers that all name the same large range: the hashed stream is nsec x size
 	c13Eval(c, Case{"op": "untrusted", "ep": "pe.all", "class": "many-overlapping-sections", "cert": hx(cert.Raw), "b": "-", "overlap_nsec": int64(c.P(5000, 12000)), "overlap_size": int64(1 << 20)})
 	c13Eval(c, Case{"op": "untrusted", "ep": "pe.all", "class": "many-overlapping-sections", "cert": hx(cert.Raw), "b": "-", "overlap_nsec": int64(200), "overlap_size": int64(64 << 10)})
+	// ... and section tables whose declared sizes add up to a multiple of 2^31 / 2^32 - one header less, exactly, one more
+	// (2048 / 4096 / 8192 x 1 MiB, 16384 x 256 KiB, ...): in the 32-bit width of the header fields such a sum is no
+	// more than the file holds. Whatever Parse makes of the table, the work stays proportional to the file
+	for _, w := range wrapSectionTables(c) {
+		if c.NFailures() < 40 {
+			c13Eval(c, Case{"op": "untrusted", "ep": "pe.all", "class": "section-sizes-sum-near-2^31-2^32-multiple", "cert": hx(cert.Raw), "b": "-", "overlap_nsec": int64(w[0]), "overlap_size": int64(w[1])})
+		}
+	}
 	// signatures
 	for i, s := range seeds {
 		if !c.Thorough && i%3 != 0 {
@@ -905,7 +1035,7 @@ func c13Gen(c *Ctx) {
 
 func init() {
 	register("C13", &PropDef{
-		Rule:   "image entry points (Parse, Signatures, Hash, Bytes, Verify) and signature entry points (ParsePKCS7, ParseAuthenticode, both Verifys) in a sandboxed worker process (address-space limit, per-input timeout, TotalAlloc delta). Images: repository binaries, generated signed images and a generated image with two section headers that declare raw data without a file pointer (PointerToRawData = 0), under sweeps of e_lfanew, SizeOfOptionalHeader, NumberOfSections, NumberOfRvaAndSizes, SizeOfHeaders, section offsets/sizes (incl. overlap, 2^31, 2^32-1), certificate directory address/size beyond the file, WIN_CERTIFICATE dwLength (<8, huge), the file cut by 1..17 bytes (and down to 1, 8, 9 bytes of table) with the directory size lowered to match (a table that ends inside the padding of its last entry or inside the entry), every ~2% truncation point, random header bytes; the section sweeps cover the first three and the last section header (raw data at / beyond the end of the file included). Signatures inside the certificate table: two signed generated images with their own signature replaced by each derived blob - the targeted forgeries (every object identifier outside the certificates, among them the digest algorithm of the SpcIndirectDataContent DigestInfo, replaced by each of seven siblings (SHA-1/384/512, ...) alone and with a content change; dropped signed attributes; several signer entries; blobs nested inside blobs), the optional fields below, and a fifth of the generic mutations - parsed, listed, hashed (SHA-256 and SHA-1/384/512), re-serialised and verified through PECOFFBinary.Verify with the certificate of the signer. WIN_CERTIFICATEs (certificate-table entries of the signed images, signature blobs in a fresh wrapper, an empty and a GUID-typed one) are read by ReadWinCertificate through 8 kinds of io.Reader (bytes.Reader, bytes.Buffer, bufio.Reader, io.SectionReader, an open os.File, io.Pipe, a reader with no method but Read, a one-byte reader) with dwLength in {0,1,7,8,9,n-1,n,n+1,n+8,2n,2^16,2^20,2^24,2^28,2^31-1,2^31,2^32-8,2^32-1} over the full body and over 0..16 bytes of body, truncations and wrong revisions; the same time/memory oracle, and the decoded fields are compared with the Lean model of the reader for every kind. Signatures: library/fixture/CMS-shaped blobs under bit flips, per-leaf flips, structural DER edits, targeted forgeries (incl. dropped signed attributes, two-signer-entry combinations, and blobs nested inside blobs: unsigned attributes, certificates, CRLs, content, signer entries, trailing fields), oversized and truncated lengths; the OPTIONAL fields of the syntax that the library never writes (unauthenticatedAttributes [1] at the end of every signer entry, crls [1]) holding nothing / a well-formed attribute / ill-shaped readable elements / 200 empty attributes / bytes that are no DER element at all (truncated element, lone zero byte, lone tag, length beyond the input, indefinite and non-minimal length, high tag number, readable then truncated; alone and behind a well-formed attribute) - quick: a rotating quarter of these contents per blob, all of them for every ninth blob; and the same unreadable bytes behind the last child of every constructed element outside the certificates (every ninth blob; thorough: every blob, inside the certificates too); every signer entry's version field set to each CMSVersion value 0..5 crossed with each form of its signer identifier (issuerAndSerialNumber as it is, the [0] subjectKeyIdentifier alternative of RFC 5652 5.3 holding the key identifier of the verifying certificate or nothing, the same tag in constructed form, no identifier at all) - for the signature blobs and, inside the certificate table of the signed images, through PECOFFBinary.Verify; each verified with the certificate its signer entry names and, for a quarter, with a stranger's. Size scaling of the image entry points (class many-signatures, built from a description: the case holds the small image, the signature and two numbers): a generated image followed by 4.5 MiB of trailing data whose certificate table holds the harness key's signature 1000 times (6 MB) and the repository image test.pecoff followed by 16 MiB with 5000 entries (23 MB) [thorough: also 1 MiB / 250, 2 MiB / 500, 8 MiB / 2000, 11 MiB / 8000, 20 MiB / 2500 entries], each entry padded to 8, directory size to match, the table the tail of the file - parsed, listed, hashed, re-serialised and verified with the signer's certificate (the first entry decides; the answer must be true) and with a stranger's (every entry answers \"not this certificate\", all n are looked at; the answer must be \"no valid signature\"): the absolute limits, cut off after twice the time limit (reported as \"did not finish\", matcher c13.time), and for the stranger's certificate a relative one that does not depend on the machine: the file may take at most 8 x the time of its two parts on their own (the same image with ONE entry + the same n entries behind the image without the trailing data, signed by the same key) + 0.1 s, best of 3 runs - work proportional to the input is additive over that split, the image hashed once per entry (F38) is their product. Non-trivial: non-empty input; distinct = distinct inputs.",
+		Rule:   "image entry points (Parse, Signatures, Hash, Bytes, Verify) and signature entry points (ParsePKCS7, ParseAuthenticode, both Verifys) in a sandboxed worker process (address-space limit, per-input timeout, TotalAlloc delta). Images: repository binaries, generated signed images and a generated image with two section headers that declare raw data without a file pointer (PointerToRawData = 0), under sweeps of e_lfanew, SizeOfOptionalHeader, NumberOfSections, NumberOfRvaAndSizes, SizeOfHeaders, section offsets/sizes (incl. overlap, 2^31, 2^32-1), certificate directory address/size beyond the file, WIN_CERTIFICATE dwLength (<8, huge), the file cut by 1..17 bytes (and down to 1, 8, 9 bytes of table) with the directory size lowered to match (a table that ends inside the padding of its last entry or inside the entry), every ~2% truncation point, random header bytes; the section sweeps cover the first three and the last section header (raw data at / beyond the end of the file included). Signatures inside the certificate table: two signed generated images with their own signature replaced by each derived blob - the targeted forgeries (every object identifier outside the certificates, among them the digest algorithm of the SpcIndirectDataContent DigestInfo, replaced by each of seven siblings (SHA-1/384/512, ...) alone and with a content change; dropped signed attributes; several signer entries; blobs nested inside blobs), the optional fields below, and a fifth of the generic mutations - parsed, listed, hashed (SHA-256 and SHA-1/384/512), re-serialised and verified through PECOFFBinary.Verify with the certificate of the signer. WIN_CERTIFICATEs (certificate-table entries of the signed images, signature blobs in a fresh wrapper, an empty and a GUID-typed one) are read by ReadWinCertificate through 8 kinds of io.Reader (bytes.Reader, bytes.Buffer, bufio.Reader, io.SectionReader, an open os.File, io.Pipe, a reader with no method but Read, a one-byte reader) with dwLength in {0,1,7,8,9,n-1,n,n+1,n+8,2n,2^16,2^20,2^24,2^28,2^31-1,2^31,2^32-8,2^32-1} over the full body and over 0..16 bytes of body, truncations and wrong revisions; the same time/memory oracle, and the decoded fields are compared with the Lean model of the reader for every kind. Signatures: library/fixture/CMS-shaped blobs under bit flips, per-leaf flips, structural DER edits, targeted forgeries (incl. dropped signed attributes, two-signer-entry combinations, and blobs nested inside blobs: unsigned attributes, certificates, CRLs, content, signer entries, trailing fields), oversized and truncated lengths; the OPTIONAL fields of the syntax that the library never writes (unauthenticatedAttributes [1] at the end of every signer entry, crls [1]) holding nothing / a well-formed attribute / ill-shaped readable elements / 200 empty attributes / bytes that are no DER element at all (truncated element, lone zero byte, lone tag, length beyond the input, indefinite and non-minimal length, high tag number, readable then truncated; alone and behind a well-formed attribute) - quick: a rotating quarter of these contents per blob, all of them for every ninth blob; and the same unreadable bytes behind the last child of every constructed element outside the certificates (every ninth blob; thorough: every blob, inside the certificates too); every signer entry's version field set to each CMSVersion value 0..5 crossed with each form of its signer identifier (issuerAndSerialNumber as it is, the [0] subjectKeyIdentifier alternative of RFC 5652 5.3 holding the key identifier of the verifying certificate or nothing, the same tag in constructed form, no identifier at all) - for the signature blobs and, inside the certificate table of the signed images, through PECOFFBinary.Verify; each verified with the certificate its signer entry names and, for a quarter, with a stranger's. Section tables whose declared sizes add up to a multiple of 2^31 / 2^32, with one header less, exactly, and one more (2047..2049, 4095..4097 and 8191..8193 headers naming the same 1 MiB of a file of 1 MiB plus headers, 16383..16385 x 256 KiB; thorough also 128 KiB, 512 KiB and 2 MiB ranges and 3 x and 15 x 2^32), built from their description: the sum is, in the 32-bit width of the header fields, no more than the file holds, and the time / memory oracle applies as to every input (Parse rejects, or the hashed stream stays proportional to the file). The SpcPeImageData of the signature (flags, SpcLink): one generated image [thorough: four] signed - by the library's own PKCS#7 signer, over a content built in the harness with the image's digest, so that the signature verifies - once for each form of the SpcLink: file/unicode (BMPString) of 0, 1, 2, 3, 27, 28, 29, 300 bytes, file/ascii and url of 0, 1, 3, 27, 29, 300 bytes, moniker with 0..3 bytes of serialised data and without its fields, an empty file alternative, unknown alternatives at both levels, no link at all, inside the [0] wrapper signers emit and (every third) without it, with the flags as the library writes them / with unused bits / left out; each signed image goes through the image entry points with the signer's certificate and each signature alone through ParsePKCS7, ParseAuthenticode and both Verifys. Size scaling of the image entry points (class many-signatures, built from a description: the case holds the small image, the signature and two numbers): a generated image followed by 4.5 MiB of trailing data whose certificate table holds the harness key's signature 1000 times (6 MB) and the repository image test.pecoff followed by 16 MiB with 5000 entries (23 MB) [thorough: also 1 MiB / 250, 2 MiB / 500, 8 MiB / 2000, 11 MiB / 8000, 20 MiB / 2500 entries], each entry padded to 8, directory size to match, the table the tail of the file - parsed, listed, hashed, re-serialised and verified with the signer's certificate (the first entry decides; the answer must be true) and with a stranger's (every entry answers \"not this certificate\", all n are looked at; the answer must be \"no valid signature\"): the absolute limits, cut off after twice the time limit (reported as \"did not finish\", matcher c13.time), and for the stranger's certificate a relative one that does not depend on the machine: the file may take at most 8 x the time of its two parts on their own (the same image with ONE entry + the same n entries behind the image without the trailing data, signed by the same key) + 0.1 s, best of 3 runs - work proportional to the input is additive over that split, the image hashed once per entry (F38) is their product. Non-trivial: non-empty input; distinct = distinct inputs.",
 		Assume: []string{"allocation budget 64 bytes per input byte + 4 MiB; time limit 0.5 s + 1 µs per input byte; an input that got no answer after ten times its limit (at least 5 s) is reported as hanging and the worker is killed; after 3 such inputs the rest of the run is not executed (class not-run-after-timeouts)", "the large files with many signatures: the same limits, no answer after twice the time limit (+ 5 s for handing the file over) = did not finish; whole file <= 8 x (image with one entry + all entries behind the short image) + 0.1 s, best of 3", "wall-clock time and resident memory are runtime facts measured on the sampled inputs only"},
 		Eval:   c13Eval, Gen: c13Gen,
 	})
